@@ -549,15 +549,23 @@ func (p *Pool) Portfolio(kinds []string, script string, getValues []string, time
 	}
 	var got []CheckResult
 	var best *CheckResult
+	var grace <-chan time.Time
+collect:
 	for range kinds {
-		r := <-ch
-		got = append(got, r)
-		if (r.Status == "sat" || r.Status == "unsat") && best == nil {
-			rr := r
-			best = &rr
-			if !all {
-				break
+		select {
+		case r := <-ch:
+			got = append(got, r)
+			if (r.Status == "sat" || r.Status == "unsat") && best == nil {
+				rr := r
+				best = &rr
+				if !all {
+					break collect
+				}
+				// cross-check mode: the other back ends get a bounded grace period to agree or disagree
+				grace = time.After(45 * time.Second)
 			}
+		case <-grace:
+			break collect
 		}
 	}
 	// dispose: solvers still running are killed
